@@ -239,10 +239,10 @@ CLAIMS = {
              "configuration of a node is invariant under every operation; SEED/KEY: opening DM14 -> seed DM15 (any seed the generator returns) "
              "-> key DM14 (the client's key function of exactly that seed) -> application consulted once with command/address/pointer type/"
              "count/requester/key/seed, after which the server is in the same Accepted state as without seed/key, so the serving, data and "
-             "closing lemmas apply unchanged (c17_seedkey_handshake); composed for a read of 1..7 bytes into the whole-transaction theorem "
-             "c17_read_short_seedkey.  Partial: the back-to-back induction is stated for servers without seed/key, and the seed/key "
-             "variants of the long read and the write are not spelled out (same lemmas); the composition with the transport (frame level) "
-             "is by the oracle.",
+             "closing lemmas apply unchanged (c17_seedkey_handshake); composed into the whole-transaction theorems WITH seed/key for the read "
+             "of 1..7 bytes, the read of 8..255 bytes and the write (c17_read_short_seedkey, c17_read_long_seedkey, c17_write_seedkey).  "
+             "Partial: the back-to-back induction is stated for servers without seed/key; the composition with the transport (frame "
+             "level) is by the oracle.",
         note="Proved for the code as repaired by D13, D14, D15, D16, D21 (each theorem is false on the unrepaired code: 8-byte reads, count > 1, "
              "back-to-back). Tie: lock-step correspondence of the model with the REAL three classes on a real ECU/CA (blocking calls run in "
              "cooperative helper threads; recorded multi-node scripts incl. hostile PDUs, resets, timeouts, address 0); oracle: real objects "
